@@ -606,12 +606,27 @@ func (s *Server) startRaftLeadershipLoop(node *raftNode) {
 						default:
 							// Step down as leader.
 							s.logger.Warn("Stepping down as metadata leader")
-							if err := node.LeadershipTransfer().Error(); err != nil {
+							// Do not wait for the transfer past a shutdown:
+							// Stop() shuts the Raft node down, which then
+							// neither holds the leadership nor answers a
+							// transfer that was already enqueued.
+							stepDown := make(chan error, 1)
+							go func() { stepDown <- node.LeadershipTransfer().Error() }()
+							select {
+							case err = <-stepDown:
+							case <-s.shutdownCh:
+								return
+							}
+							if err != nil {
 								if err == raft.ErrNotLeader || err == raft.ErrLeadershipTransferInProgress {
 									// Leadership is already gone or on its way
 									// to another server, so there is nothing
 									// to step down from.
 									continue
+								}
+								if err == raft.ErrRaftShutdown {
+									// The server is being stopped.
+									return
 								}
 								panic(errors.Wrap(err, "error on metadata leadership step down"))
 							}
